@@ -55,6 +55,20 @@ def cases(rng, tier):
                     'model': None, 'model_line': stepgen.case_line(sts[0], t, steps), 'spec': None,
                     'spec_impl': {'kind': 'multi', 'states': [sts[0]], 'sched': [0] * steps, 'probe': 0},
                     'label': 'rerun_same_config' if same else 'rerun_two_configs', 'nontrivial': True})
+    # construction and reset: two instances whose configuration files differ only in the registers' reset values
+    # (the values are captured when an instance is built, so the configuration singleton does not interfere here)
+    for k in range(6 if tier == 'quick' else 200):
+        c0 = copy.deepcopy(statelib.DEFAULT_CFG)
+        c1 = copy.deepcopy(statelib.DEFAULT_CFG)
+        c1['reset_values']['VBAR'] = rng.choice([0x40, 0x1000, 0x400000])
+        c1['reset_values']['SCTLR'] = c0['reset_values']['SCTLR'] ^ rng.choice([1, 1 << 30, (1 << 30) | 1, 1 << 13])
+        order = [c0, c1] if k % 2 == 0 else [c1, c0]
+        for probe in (0, 1):
+            out.append({'impl': {'kind': 'multi_construct', 'cfgs': order, 'probe': probe, 'reset': k % 3 != 0},
+                        'model': None, 'spec': None,
+                        'spec_impl': {'kind': 'multi_construct', 'cfgs': [order[probe]], 'probe': 0, 'reset': k % 3 != 0},
+                        'spec_impl_fresh': True,
+                        'label': 'construct_then_reset' if k % 3 != 0 else 'construct_only', 'nontrivial': True})
     return out
 
 
